@@ -27,7 +27,7 @@ FLOORS = {"nontrivial": 0.3}
 MNAMES = ["A", "B", "C", "FOO", "BAR_1", "Q", "CAT"]
 WORDS = ["foo", "bar", "x", "y1", "_z", "call", "select", "w2", "A1", "_A", "A_", "xB", "FOOD", "aFOO", "Q1", "CATS", "1A", "B_1"]
 PUNCT = [";", ",", "=", "+", "-", "*", "(", ")", "[", "]", "{", "}", ":", "<", ">"]
-STRS = ['"s"', '"A B"', '"FOO(1)"', '"// no comment"', '"/* x */"', '"#define Z 1"', '"a,b"', '"("', '""', '"p q"']
+STRS = ['"s"', '"A B"', '"FOO(1)"', '"// no comment"', '"/* x */"', '"#define Z 1"', '"a,b"', '"("', '""', '"p q"', '"a\\\\b"', '"c:\\d"']
 
 
 @st.composite
@@ -53,7 +53,15 @@ def _source(draw):
                 if any(m in s for m in MNAMES) or "//" in s or "/*" in s or "#" in s:
                     feats.add("string_with_macro_or_marker")
             elif c <= 8 and allow_macros and defined:
-                toks.append(use(draw(st.sampled_from(sorted(defined))), params))
+                u = use(draw(st.sampled_from(sorted(defined))), params)
+                adj = draw(st.integers(0, 7))
+                if adj == 0 and not u.endswith(";"):
+                    u = u + draw(st.sampled_from(['"s"', '"A"', '"x y"']))          # a macro directly in front of a string
+                    feats.add("macro_adjacent_to_string")
+                elif adj == 1:
+                    u = draw(st.sampled_from(['"s"', '"B"'])) + u                     # ... and directly behind one
+                    feats.add("macro_adjacent_to_string")
+                toks.append(u)
                 feats.add("macro_use")
             elif params:
                 toks.append(draw(st.sampled_from(params)))
@@ -85,7 +93,12 @@ def _source(draw):
             return draw(st.sampled_from(["", "x ", "1 + "])) + draw(st.sampled_from(fnames))
         if c2 == 1:
             feats.add("word_adjacent_to_string_in_argument")
-            return draw(st.sampled_from(['abc"x"', 'foo"a,b"bar', '"s"y1', 'x"A"']))
+            return draw(st.sampled_from(['abc"x"', 'foo"a,b"bar', '"s"y1', 'x"A"', 'a"//"', 'w2"/*"']))
+        if c2 == 2:
+            # comments and a line continuation inside an argument are removed like anywhere else
+            feats.add("comment_in_argument")
+            onames = sorted(k for k, v in defined.items() if v is None)
+            return draw(st.sampled_from(['a/*c*/', 'x /*c*/', '/*c*/y1', 'a/*c*/b', '/* , ) */x', 'foo/*"*/', 'a\\\nb', 'x/*c*/ + 1'] + [n + "/*c*/" for n in onames[:2]]))
         return draw(st.sampled_from(["a b", "1 + 2", "x"]))
 
     def use(name, params=(), depth=2):
@@ -114,6 +127,10 @@ def _source(draw):
             else:
                 k = draw(st.integers(0, 3))
                 params = ["p", "q", "r"][:k]
+                if params and earlier and draw(st.integers(0, 4)) == 0:
+                    # a parameter with the name of a macro: inside this body the name means the parameter
+                    params[draw(st.integers(0, k - 1))] = draw(st.sampled_from(sorted(earlier)))
+                    feats.add("param_named_like_macro")
                 items = []
                 for _ in range(draw(st.integers(1, 5))):
                     c = draw(st.integers(0, 9))
@@ -140,7 +157,7 @@ def _source(draw):
         if draw(st.integers(0, 6)) == 0 and " " in text[8:]:
             # multi-line define with a backslash-newline inside the body
             cut = text.rfind(" ")
-            if text[:cut].count('"') % 2 == 0:          # never inside a string literal
+            if text[:cut].count('"') % 2 == 0 and text[:cut].count("/*") == text[:cut].count("*/"):          # never inside a string literal or a comment
                 text = text[:cut] + " \\\n" + text[cut + 1:]
                 feats.add("multiline_define")
         defined[name] = np_
@@ -168,12 +185,16 @@ def _source(draw):
                         out.append("#undef " + draw(st.sampled_from(sorted(defined))))      # the macro stays defined
                         feats.add("undef_in_inactive")
                     else:
-                        out.append("#define " + draw(st.sampled_from(MNAMES)) + " dead%d" % dead[0])
+                        out.append(draw(st.sampled_from(["#define " + draw(st.sampled_from(MNAMES)) + " dead%d" % dead[0], "#foo bar", '"s" #else', '"s" #endif', '  "x y" #define ZQ 1'])))
                     feats.add("directive_in_inactive")
             elif c == 6 and active and defined:
                 nm = draw(st.sampled_from(sorted(defined)))
                 out.append("#undef " + nm)
                 del defined[nm]
+            elif c == 7 and draw(st.integers(0, 3)) == 0:
+                # a '#' behind a string that starts the line is ordinary text, not a directive
+                out.append(draw(st.sampled_from(['"abc" # 2', '  "s" #define ZQ 1', '"s" #endif', '"a" #else x'])))
+                feats.add("hash_after_string_at_line_start")
             elif c == 7:
                 out.append(draw(st.sampled_from(["// comment A FOO(1) \"x", "   // indented", "x = 1; // trailing B", "/* block A */ y", "/* multi\nline A\n*/", "a /* in */ b"])))
                 feats.add("comment")
